@@ -513,8 +513,8 @@ func c07Jobs(tier string) []Job {
 	// a dead peer: the server stops reading for good. Close, EOF (a half-closed peer) and a read error close the
 	// client's socket, which ends the blocked write; a cancelled context cannot (see 9.4), so it is left out here
 	for _, cs := range causes {
-		if cs == "cancel" || cs == "writeerr" {
-			continue
+		if cs == "writeerr" {
+			continue // the injected write error ends the blocked write by itself
 		}
 		for _, em := range []int{3, 7} {
 			add(c07Params{Backlog: 1, Segs: "one", Mode: "sending", Emit: em, Stall: true, Dead: true, Cause: cs, ChanCap: 2}, b2, 20)
